@@ -55,6 +55,17 @@ def _cases(tier, rng):
             yield {'kind': 'plain', 'term': [['duc', km]], 'items': xs, 'no_model': True}
             yield {'kind': 'mux', 'term': [['group_by', ['mod', 2], [['duc', km]]]], 'items': xs + xs, 'no_model': True}
             yield {'kind': 'mux', 'term': [['distinct', km]], 'items': xs, 'no_model': True}
+    # consumers that modify what they are handed in place: an emitted chunk / item belongs to the consumer from then on, what the
+    # operator emits next is still defined by the list semantics of ITS input (judged by the list semantics alone)
+    for _ in range({'quick': 30, 'thorough': 300, 'search': 20}[tier]):
+        n_ = rng.choice([1, 2, 3, 4])
+        xs = [rng.randrange(9) for _ in range(rng.choice([3, 5, 8, 11]))]
+        term = [['batch', n_], ['map', ['append_mark', -1]]]
+        yield {'kind': rng.choice(['mux', 'plain']), 'term': term, 'items': xs, 'no_model': True}
+        yield {'kind': 'mux', 'term': [['group_by', ['mod', 2], term]], 'items': xs, 'no_model': True}
+        ls = [{'l': [rng.choice([0, 0, 1, 2]), j]} for j in range(rng.choice([3, 5, 8]))]
+        term = [['duc', ['nth', 0]], ['map', ['set_first', rng.choice([0, 7])]]]
+        yield {'kind': rng.choice(['mux', 'plain']), 'term': term, 'items': ls, 'no_model': True}
     # values whose hashes collide in CPython (hash(-1) == hash(-2)), big ints, equal-but-not-identical keys
     for _ in range({'quick': 40, 'thorough': 600, 'search': 60}[tier]):
         xs = [rng.choice([-1, -2, 0, 2 ** 61 - 1, -1, -2]) for _ in range(rng.choice([2, 3, 5, 8]))]
